@@ -230,8 +230,13 @@ func (p *nodeInterp) LoadExpr(node ast.Node) string {
 	if start == token.NoPos {
 		return ""
 	}
-	pos := p.fset.Position(start)
+	// the source text is looked up in the real file: a //line directive changes the
+	// reported file name, not where the node's text is
+	pos := p.fset.PositionFor(start, false)
 	f := p.files[pos.Filename]
+	if f == nil {
+		return ""
+	}
 	n := int(node.End() - start)
 	return string(f.Code[pos.Offset : pos.Offset+n])
 }
